@@ -407,3 +407,35 @@ def mixed_order_sig(rng, where="R", pure=True):
     else:
         strict = ed_compress(_ed_mul(k % 8, T)) == ed_compress((0, 1, 1, 0))
     return Ab, msg, Rb + S.to_bytes(32, "little"), strict
+
+
+def mont_ladder_raw(kn, un, bits=256):
+    """unclamped Montgomery ladder: x-coordinate of [kn]·(point with x = un), any scalar"""
+    x1, x2, z2, x3, z3, swap = un % P25519, 1, 0, un % P25519, 1, 0
+    for t in range(bits - 1, -1, -1):
+        kt = (kn >> t) & 1
+        swap ^= kt
+        if swap:
+            x2, x3, z2, z3 = x3, x2, z3, z2
+        swap = kt
+        A = (x2 + z2) % P25519; AA = A * A % P25519
+        B = (x2 - z2) % P25519; BB = B * B % P25519
+        E = (AA - BB) % P25519
+        C = (x3 + z3) % P25519; D = (x3 - z3) % P25519
+        DA = D * A % P25519; CB = C * B % P25519
+        x3 = (DA + CB) % P25519; x3 = x3 * x3 % P25519
+        z3 = (DA - CB) % P25519; z3 = x1 * z3 * z3 % P25519
+        x2 = AA * BB % P25519
+        z2 = E * (AA + 121665 * E) % P25519
+    if swap:
+        x2, x3, z2, z3 = x3, x2, z3, z2
+    return x2 * pow(z2, P25519 - 2, P25519) % P25519
+
+
+def x25519_peer_for_output(sk, target_u):
+    """a peer public key P with X25519(sk, P) = target_u (target in the prime-order subgroup): P = [s⁻¹ mod L]·T"""
+    kk = bytearray(sk)
+    kk[0] &= 248; kk[31] &= 127; kk[31] |= 64
+    s = int.from_bytes(kk, "little")
+    inv = pow(s % ED_L, -1, ED_L)
+    return mont_ladder_raw(inv, target_u).to_bytes(32, "little")
